@@ -221,6 +221,12 @@ def HDPub.serialize (p : HDPub) (version : Bytes) : Option Bytes := do
   let s ← sec p.point true
   pure (version ++ d ++ p.parentFp ++ c ++ p.chainCode ++ s)
 
+/-- HDPublicKey.raw_serialize(): `self._serialize(XPUB[self.network])` — the version of the *network*, not
+    `pub_version`; memoised in `self._raw` (the attributes it depends on never change on an object, so the memo
+    is this value) -/
+def HDPub.rawSerialize (p : HDPub) : Option Bytes :=
+  (dictGet Gen.hdXpub p.network).bind p.serialize
+
 /-- network chosen by raw_parse from the version bytes: testnet set first (keeping a caller-supplied
     network), then mainnet set (overriding it); `none` = ValueError -/
 def netOfVersion (testnets mainnets : List (String × Bytes)) (ver : Bytes) (network : Option String) :
